@@ -8,7 +8,7 @@ T1_MODULES = {
     "C16": ["vt.contracts.syntactic"],
     "C15": ["vt.contracts.diskdict_effects"],
     "C13": ["vt.contracts.syntactic", "vt.contracts.misc_small", "vt.contracts.cache_key"],
-    "C01": ["vt.contracts.legs_rules", "vt.contracts.core_mutators", "vt.contracts.utils_maxcounter", "vt.contracts.einsum_eq", "vt.contracts.tensordot_recipe", "vt.contracts.core_legs", "vt.contracts.core_inds", "vt.contracts.contractor_protocol"],
+    "C01": ["vt.contracts.legs_rules", "vt.contracts.core_mutators", "vt.contracts.utils_maxcounter", "vt.contracts.einsum_eq", "vt.contracts.tensordot_recipe", "vt.contracts.core_legs", "vt.contracts.core_inds", "vt.contracts.contractor_protocol", "vt.contracts.extract_schedule"],
     "C02": ["vt.contracts.legs_rules", "vt.contracts.syntactic", "vt.contracts.core_mutators", "vt.contracts.utils_maxcounter", "vt.contracts.core_remove_ind", "vt.contracts.core_reconfigure"],
     "C03": ["vt.contracts.utils_maxcounter", "vt.contracts.legs_rules", "vt.contracts.core_stats", "vt.contracts.core_legs", "vt.contracts.core_remove_ind"],
     "C04": ["vt.contracts.utils_maxcounter", "vt.contracts.legs_rules", "vt.contracts.core_stats", "vt.contracts.syntactic", "vt.contracts.core_mutators", "vt.contracts.core_remove_ind"],
